@@ -296,3 +296,108 @@ contract("buidl.tx.Tx.fee#anylen", props=("C11",), setup=_FeeSetup(), args=["sel
          invariants={1: {"inv": ["input_sum == spec.listser.sum_values(self.tx_ins, _k)"], "types": {"input_sum": "int"}},
                      2: {"inv": ["output_sum == spec.listser.sum_amounts(self.tx_outs, _k)"], "types": {"output_sum": "int"}}},
          gen=_gen_fee)
+
+
+# ---------------------------------------------------------------------------- C04: Tx.parse_legacy / parse_segwit for every shape
+# Elements are abstract: TxIn.parse / TxOut.parse / Witness.parse on a stream that starts with the abstract serialisation of an
+# element return that element and consume exactly those bytes (ASSUMED here: the element codecs are inverse and self-delimiting;
+# that is what the element-level round-trip contracts of txcodec.py prove for concrete element shapes).  What is proved is the
+# structure: counts, order, nothing skipped or read twice, segwit marker, witness section, locktime, rest of the stream untouched.
+def _elem_parser(tag, pick):
+    def h(m, args, kwargs):
+        from verif.pyvc.values import OB, HStream, Ref
+        s = args[-1] if not kwargs else kwargs.get("s", args[-1])
+        o = m.p.deref(s) if isinstance(s, Ref) else None
+        if not isinstance(o, HStream) or not o.rem or not isinstance(o.rem[0], OB):
+            return NotImplemented
+        t = o.rem[0].t
+        import z3
+        if not (z3.is_app(t) and t.decl().name() == "atom_ser_" + tag):
+            return NotImplemented
+        el = pick(m, t.arg(0))
+        if el is None:
+            return NotImplemented
+        o.consumed.append(o.rem.pop(0))
+        return el
+    return h
+
+
+class _TxParseSetup:
+    def __init__(self, segwit):
+        self.segwit = segwit
+
+    def __call__(self, m, env):
+        import z3
+        from buidl import tx as _tx, witness as _w
+        from verif.pyvc.values import HStream, as_chunks
+        from verif.pyvc.interp import Frame
+        symlist.install(m, {_tx.TxIn.serialize: "txin", _tx.TxOut.serialize: "txout", _w.Witness.serialize: "witness"})
+        env["ins"] = m.make_sym("ins", symlist.symlist("buidl.tx.TxIn", {"witness": "buidl.witness.Witness"}, max_len=2**32))
+        env["outs"] = m.make_sym("outs", symlist.symlist("buidl.tx.TxOut", max_len=2**32))
+        lists = {"txin": m.p.deref(env["ins"]).pre, "txout": m.p.deref(env["outs"]).pre}
+
+        def pick_elem(tag):
+            def pick(mm, atom):                   # atom == list_elem(L, idx) of the matching list
+                L, n, elem = lists[tag]
+                if z3.is_app(atom) and atom.decl().name() == "list_elem" and atom.arg(0).eq(L):
+                    return elem(atom.arg(1))
+                return None
+            return pick
+
+        def pick_wit(mm, atom):                   # atom == atom_field_witness(list_elem(L_ins, idx))
+            L, n, elem = lists["txin"]
+            if z3.is_app(atom) and atom.decl().name() == "atom_field_witness":
+                inner = atom.arg(0)
+                if z3.is_app(inner) and inner.decl().name() == "list_elem" and inner.arg(0).eq(L):
+                    return mm.getattr(elem(inner.arg(1)), "witness")
+            return None
+        m.intrinsics[_tx.TxIn.parse.__func__] = _elem_parser("txin", pick_elem("txin"))
+        m.intrinsics[_tx.TxOut.parse.__func__] = _elem_parser("txout", pick_elem("txout"))
+        m.intrinsics[_w.Witness.parse.__func__] = _elem_parser("witness", pick_wit)
+        fr = Frame(dict(env, spec=REG.spec_module), REG.spec_globals)
+        f = "tx_segwit_any" if self.segwit else "tx_legacy_any"
+        v = m.eval_spec("spec.listser.%s(version, ins, outs, spec.le(locktime, 4)) + tail" % f, fr)
+        env["s"] = m.p.alloc(HStream(as_chunks(v)))
+
+    def conc(self, env, glob):
+        pass
+
+
+_REST_L = "spec.listser.tx_legacy_from_outs(outs, spec.le(locktime, 4)) + tail"
+contract("buidl.tx.Tx.parse_legacy#anylen", props=("C04",), bcat_unit=True,
+         ghost={"version": U32, "locktime": U32, "tail": "bytes"},
+         params={"cls": ("const_cls", "buidl.tx.Tx")},
+         setup=_TxParseSetup(False), args=["cls", "s"],
+         ensures=["returns()", "result.version == version", "result.tx_ins == ins", "result.tx_outs == outs",
+                  "result.locktime == locktime", "result.segwit is False", "s.read() == tail"],
+         invariants={1: {"inv": ["stream_is(s, spec.listser.concat_ser_from(ins, _k) + %s)" % _REST_L, "inputs == ins[:_k]"], "index": "_k"},
+                     2: {"inv": ["stream_is(s, spec.listser.concat_ser_from(outs, _k) + spec.le(locktime, 4) + tail)",
+                                 "outputs == outs[:_k]"], "index": "_k"}})
+
+# BLIND SPOT of the segwit contract (stated in the evidence): an abstract input element and "the TxIn parsed from its bytes, later
+# given its witness" are the same object in this model, so the assignment `tx_in.witness = Witness.parse(s)` is invisible: the
+# contract proves that the witness section is consumed element by element in order (stream invariant of loop 3) but NOT that each
+# parsed witness ends up on its input (a hand-made mutant that skips the assignment for input 257 still verifies).  That clause is
+# decided by the explicit-shape contracts of txcodec.py (1-2 inputs) and the bounded companion (up to 300 inputs).
+_REST_S1 = ("spec.compact_size(len(outs)) + spec.listser.concat_ser_from(outs, 0) + spec.listser.concat_wit_from(ins, 0) "
+            "+ spec.le(locktime, 4) + tail")
+contract("buidl.tx.Tx.parse_segwit#anylen", props=("C04",), bcat_unit=True,
+         ghost={"version": U32, "locktime": U32, "tail": "bytes"},
+         params={"cls": ("const_cls", "buidl.tx.Tx")},
+         setup=_TxParseSetup(True), args=["cls", "s"],
+         ensures=["returns()", "result.version == version", "result.tx_ins == ins", "result.tx_outs == outs",
+                  "result.locktime == locktime", "result.segwit is True", "s.read() == tail"],
+         invariants={1: {"inv": ["stream_is(s, spec.listser.concat_ser_from(ins, _k) + %s)" % _REST_S1, "inputs == ins[:_k]"], "index": "_k"},
+                     2: {"inv": ["stream_is(s, spec.listser.concat_ser_from(outs, _k) + spec.listser.concat_wit_from(ins, 0) "
+                                 "+ spec.le(locktime, 4) + tail)", "outputs == outs[:_k]"], "index": "_k"},
+                     3: {"inv": ["stream_is(s, spec.listser.concat_wit_from(ins, _k) + spec.le(locktime, 4) + tail)"], "index": "_k"}})
+
+# the dispatcher: byte 5 decides (BIP144 marker 0x00), then the stream is rewound
+for _sw in (False, True):
+    contract("buidl.tx.Tx.parse#anylen-%s" % ("segwit" if _sw else "legacy"), props=("C04",), bcat_unit=True,
+             ghost={"version": U32, "locktime": U32, "tail": "bytes"},
+             params={"cls": ("const_cls", "buidl.tx.Tx")},
+             requires=[] if _sw else ["len(ins) != 0"],      # a legacy serialisation with zero inputs reads as the segwit marker (BIP144)
+             setup=_TxParseSetup(_sw), args=["cls", "s"],
+             ensures=["returns()", "result.version == version", "result.tx_ins == ins", "result.tx_outs == outs",
+                      "result.locktime == locktime", "result.segwit is %s" % _sw, "s.read() == tail"])
